@@ -157,7 +157,7 @@ Definition exact : list (string * cls) := [
 (* (prefix of the site name, number of sites with that prefix, class) *)
 Definition groups : list (string * nat * cls) := [
   ("routing_thread::RoutingThread::process_ghost_chain#", 9,
-     Unreachable "all seven vectors of a GhostChainSync are built with the same count by GhostChainSync::deserialize (and by generate_ghost_chain); i ranges over prehashes.len()");
+     Unreachable "all seven vectors of a GhostChainSync are built with the same count by GhostChainSync::deserialize (and by generate_ghost_chain); i ranges over prehashes.len(); (after the proposed lite-node fix also pair[0] / pair[1] of block_ids.windows(2), which always has two elements)");
   ("consensus::peers::peer_service::PeerService_as_TryFrom::try_from#", 6,
      Unreachable "indices 0..2 after the values.len() != 3 check; the unwraps after the is_err() checks");
   ("consensus::peers::peer_service::PeerService::deserialize_services#", 4,
